@@ -2010,7 +2010,9 @@ func (s *SelectStatement) rewriteWithoutTimeDimensions() string {
 	n := RewriteFunc(s.Condition, func(n Node) Node {
 		switch n := n.(type) {
 		case *BinaryExpr:
-			if n.LHS.String() == "time" {
+			// A time bound may be written with time on either side and in
+			// any letter case, as ConditionExpr accepts it.
+			if isTimeRef(n.LHS) || isTimeRef(n.RHS) {
 				return &BooleanLiteral{Val: true}
 			}
 			return n
@@ -2022,6 +2024,12 @@ func (s *SelectStatement) rewriteWithoutTimeDimensions() string {
 	})
 
 	return n.String()
+}
+
+// isTimeRef returns true if expr is a reference to the time column.
+func isTimeRef(expr Expr) bool {
+	ref, ok := expr.(*VarRef)
+	return ok && strings.ToLower(ref.Val) == "time"
 }
 
 func encodeMeasurement(mm *Measurement) *internal.Measurement {
